@@ -300,6 +300,31 @@ example : (runEntry diamond 7 { main := 4, rt := some 0, abiInit := true }).trac
     [.body 0 false, .abiTypes, .body 1 true, .body 1 false, .body 3 false, .body 2 false, .body 4 false,
      .mainMain] := by decide
 
+/-- `patched_chain` on the diamond: package 1 is chained, reachable from main -/
+example : (hostTrace diamond 7 [4]).count (.body 1 true) = 1 ∧
+    Bef (.body 1 true) (.body 1 false) (hostTrace diamond 7 [4]) :=
+  let h := (patched_chain diamond diamond_topo 7 [4] (by decide) 1
+    ⟨4, by simp, .step (q := 3) (by decide) (.step (q := 1) (by decide) (.refl 1))⟩).1 [0] rfl
+  ⟨h.1, h.2.1⟩
+
+/-- `entry_order`'s hypothesis on a concrete entry (runtime = 0, main = 4) -/
+example : ∀ c ∈ ({ main := 4, rt := some 0, abiInit := true } : Entry).calls, c < 7 := by decide
+
+/-- `init_idempotent` on the diamond: the host calls `b`, `main` — and again -/
+example : callInits diamond 7 ([3, 4] ++ [3, 4]) {} = callInits diamond 7 [3, 4] {} :=
+  init_idempotent diamond diamond_topo 7 [3, 4] (by decide)
+
+/-- `unreachable_never`: package 5 is in the program but nobody imports it -/
+example : (hostTrace diamond 7 [4]).count (.body 5 false) = 0 :=
+  unreachable_never diamond diamond_topo 7 [4] (by decide) 5 false (by
+    rintro ⟨c, hc, hr⟩
+    simp at hc; subst hc
+    have := Reach.le diamond_topo hr
+    omega)
+
+example : initPkg diamond 5 4 {} = initPkg diamond 9 4 {} :=
+  fuel_irrelevant diamond diamond_topo 5 9 4 {} (by decide) (by decide)
+
 /-- an emitted `init` of the shape llgo produces today, and one with the guard store moved after the
     import calls (rejected) -/
 example : okShape { id := 2, toks := [.loadGuard, .brGuard .ret .body, .storeGuard, .callInit 0, .callInit 1, .act, .act, .brRet],
